@@ -166,6 +166,8 @@ type SackPeer struct {
 	TSEcr      uint32
 	ShowSynAck bool
 	ExtraOpts  []byte
+	// ExtraFlags are OR-ed into the SYN-ACK's flag byte (e.g. ECE 0x40 for an ECN-setup SYN-ACK)
+	ExtraFlags uint8
 
 	mu       sync.Mutex
 	conns    []net.Conn
@@ -298,7 +300,7 @@ func (p *SackPeer) synAckBytes(local netip.Addr, lp uint16, isn uint32) []byte {
 	opts = append(opts, wirefmt.OptNop()...)
 	opts = append(opts, wirefmt.OptWS(7)...)
 	opts = append(opts, p.ExtraOpts...)
-	seg := wirefmt.TCP{SrcPort: p.Addr.Port(), DstPort: lp, Seq: p.ServerISN, Ack: isn, Flags: wirefmt.TCPSyn | wirefmt.TCPAck, Window: 65160, Options: opts}.Marshal(p.Addr.Addr(), local)
+	seg := wirefmt.TCP{SrcPort: p.Addr.Port(), DstPort: lp, Seq: p.ServerISN, Ack: isn, Flags: wirefmt.TCPSyn | wirefmt.TCPAck | p.ExtraFlags, Window: 65160, Options: opts}.Marshal(p.Addr.Addr(), local)
 	return wirefmt.IPv4{TTL: 64, Proto: wirefmt.ProtoTCP, Src: p.Addr.Addr(), Dst: local, Flags: 2}.Marshal(seg)
 }
 
